@@ -1014,6 +1014,11 @@ static int _GD_Change(DIRFILE *D, const char *field_code, const gd_entry_t *N,
         }
 
         type = _GD_ConstType(D, Q.EN(scalar,const_type));
+        if (Q.EN(scalar,array_len) > GD_SSIZE_T_MAX / GD_SIZE(type)) {
+          /* the size of the array would overflow */
+          _GD_SetError(D, GD_E_ALLOC, 0, NULL, 0, NULL);
+          break;
+        }
         Qe.u.scalar.d = _GD_Malloc(D, GD_SIZE(type) * Q.EN(scalar,array_len));
         if (Qe.u.scalar.d == NULL)
           break;
@@ -1046,6 +1051,12 @@ static int _GD_Change(DIRFILE *D, const char *field_code, const gd_entry_t *N,
 
         if (Q.EN(scalar,array_len) != E->EN(scalar,array_len)) {
           modified = 1;
+
+          if (Q.EN(scalar,array_len) > GD_SSIZE_T_MAX / sizeof(const char *)) {
+            /* the size of the array would overflow */
+            _GD_SetError(D, GD_E_ALLOC, 0, NULL, 0, NULL);
+            break;
+          }
 
           if (Q.EN(scalar,array_len) < E->EN(scalar,array_len)) {
             /* Free dropped elements */
